@@ -4,7 +4,7 @@
    Python code is an explicit lookup whose failure is [Err IndexError]; the three offset-driven main loops run on
    fuel [S (length lines)] and report [Err OutOfFuel] when it runs out. *)
 From Coq Require Import List ZArith String Bool Arith.
-From Verif Require Import Lib.Sexp Model.C12_docstrings Proofs.C12_docstrings Model.C12_regex Gen.C12_regexes Proofs.C12_regex.
+From Verif Require Import Lib.Sexp Model.C12_docstrings Proofs.C12_docstrings Model.C12_regex Gen.C12_regexes Proofs.C12_regex Model.C12_chars Proofs.C12_chars.
 Import ListNotations.
 Open Scope list_scope. Open Scope nat_scope.
 
@@ -125,7 +125,7 @@ Print Assumptions C12_regex_step_counter_faithful.
    for every subject, every position and every continuation whose calls cost at most K steps. *)
 Theorem C12_regex_a1_bounded :
   forall ic (R : Type) r, poly1 r = true ->
-    forall n K p s c (k : kontc R), List.length s <= n ->
+    forall n K (p : N) s c (k : kontc R), List.length s <= n ->
       (forall p' s' c', List.length s' <= List.length s -> fst (k p' s' c') <= K) ->
       fst (mc ic r p s c k) <= bound r n K.
 Proof. intros ic R r H n K p s c k Hn Hk. apply mc_bound; auto. Qed.
@@ -160,3 +160,43 @@ Theorem C12_repo_regexes_a1_except :
   map fst (filter (fun x => negb (regex_a1 (snd x))) all_regexes) = ["numpy._RE_PARAMETER"%string].
 Proof. exact repo_regexes_a1_except. Qed.
 Print Assumptions C12_repo_regexes_a1_except.
+
+(* ---- progress: every iteration of the three main loops moves the cursor strictly forward and stays inside the
+   docstring, for every line sequence (the block readers' own loops are structural recursion over the remaining
+   lines; the quantifier loop of the matcher only goes on after an iteration that consumed a character) ---- *)
+Theorem C12_google_loop_progress :
+  forall lines o st st', g_step lines o st = Next st' -> g_off st < g_off st' /\ g_off st < List.length lines.
+Proof. exact g_step_next. Qed.
+Print Assumptions C12_google_loop_progress.
+
+Theorem C12_numpy_loop_progress :
+  forall lines st st', n_step lines st = Next st' -> n_off st < n_off st' /\ n_off st < List.length lines.
+Proof. exact n_step_next. Qed.
+Print Assumptions C12_numpy_loop_progress.
+
+Theorem C12_sphinx_loop_progress :
+  forall lines st st', s_step lines st = Next st' ->
+    s_off st < s_off st' /\ s_off st < List.length lines /\ s_off st' <= List.length lines.
+Proof. exact s_step_next. Qed.
+Print Assumptions C12_sphinx_loop_progress.
+
+(* ---- character level: the line features are computed from the characters inside the model (model matcher on the
+   regenerated regexes, regenerated keyword tables) and the items of every section are parsed; no look-up fails, for
+   every list of lines of characters, every option set and parent ---- *)
+Theorem C12_google_total_at_character_level :
+  forall cl o p, exists r, g_parse_full cl o p = Ok r.
+Proof. exact google_full_total. Qed.
+Print Assumptions C12_google_total_at_character_level.
+
+Theorem C12_numpy_total_at_character_level :
+  forall cl o p, cleandoc_post (features cl) = true -> exists r, n_parse_full cl o p = Ok r.
+Proof. exact numpy_full_total. Qed.
+Print Assumptions C12_numpy_total_at_character_level.
+
+(* the quantifier loop counts its iterations down from the number of characters left; that counter is no cut-off:
+   every counter at least that large gives the same result, for every regex, subject, position and continuation *)
+Theorem C12_regex_quantifier_counter_irrelevant :
+  forall ic (R : Type) g a p s c (k : kont R) n, List.length s <= n ->
+    m ic (RStar g a) p s c k = star_loop (m ic a) g k n p s c.
+Proof. intros ic R g a p s c k n H. apply star_counter_irrelevant. exact H. Qed.
+Print Assumptions C12_regex_quantifier_counter_irrelevant.
